@@ -70,6 +70,9 @@ pub struct Oracles {
     /// C11: resend-until-acknowledged and silence at rest (`c11_no_resend`: also the "not re-sent" direction).
     pub c11: bool,
     pub c11_no_resend: bool,
+    /// C11: only the rest oracle (three silent ticks after closure, then resumption): for
+    /// histories with structural changes, where mutations also travel in update messages.
+    pub c11_rest: bool,
     /// C10: all-or-nothing per entity / related group and message size limits.
     pub c10: bool,
     /// C12: MutateTickReceived fires exactly once, only when all messages of the tick were applied.
@@ -847,7 +850,7 @@ impl Scenario for ReplCell {
             }
         }
         let mut r = self.final_check(x);
-        if r.is_ok() && self.oracles.c11 {
+        if r.is_ok() && (self.oracles.c11 || self.oracles.c11_rest) {
             r = crate::props::c11::quiescence(self, x);
         }
         if r.is_ok() && self.oracles.c08_twin && self.clients() >= 2 {
